@@ -156,14 +156,25 @@ def run(tier, seed):
                 v.violation("total:%dbpp:%s:%s:%s" % (off["bpp"], "rle" if off["comp"] else "raw", off["res"] if off["res"] != "ok" else "size", norm(off["ek"]) if off["res"] == "panic" else "short-string"),
                             "%dx%d %d bpp %s data %s: outcome %s/%s with %d bytes (must be an error or exactly %d bytes)" % (off["w"], off["h"], off["bpp"], "compressed" if off["comp"] else "raw", off["data"][:16], off["res"], off["ek"][:80], off["len"], off["w"] * off["h"] * 4),
                             {"case": off})
+        # direct calls of the two decoders with both dimensions large (images decompress() could not allocate in the harness)
+        outp = os.path.join(wd, "direct.json")
+        rc, err = core.run_harness(vh, "codec", ["--direct", "--out", outp], timeout=3000)
+        if rc != 0:
+            raise core.ToolError("codec driver (direct) failed: " + err[-1000:])
+        direct = json.loads(open(outp).read())
+        for off in direct["offenders"]:
+            v.violation("total:direct:%s:%s:%s" % (off["fn"], off["res"], norm(off["ek"]) if off["res"] == "panic" else "size"),
+                        "%s(%d data bytes %s, width %d, height %d, output of %d elements): outcome %s/%s, peak heap %d (must be a result, success only if the buffer holds the image)" % (off["fn"], len(off["data"]), off["data"][:8], off["w"], off["h"], off["outlen"], off["res"], off["ek"][:80], off["peak"]),
+                        {"case": off})
+        agg.append(direct)
         nall = len(cases) + sum(a["evaluations"] for a in agg)
         cov = {"evaluations": nall, "distinct_nontrivial": len(seen) + sum(a["evaluations"] for a in agg),
                "rule": "malformed neighbours of %d TLC-enumerated conformant encodings (every truncation point, every byte +-1, undefined order codes 0xA0/0xA1/0xBF/0xF5/0xFB/0xFC/0xFF at the first positions, planar header variants, width/height +-1 and 0, "
                        "depth in {8,15,16,24,32,33}, flag flipped), classified by the reference decoders; cut / resized random encodings; raw data of wrong size up to 300x300; ALL data strings of length <= 2 for every (w,h) in 0..3 x 0..3 at 16 and 32 bpp with both flags "
-                       "(+ length <= 1 at 8/15/24/33 bpp); %d grammar-aware random streams; distinct = distinct (geometry, depth, flag, data)" % (len(seeds), agg[1]["evaluations"]),
+                       "(+ length <= 1 at 8/15/24/33 bpp); %d grammar-aware random streams; %d direct calls of rle_32_decompress / rle_16_decompress with both dimensions in {0,1,2,255,16383..16385,32767,32768,46341,65534,65535}, 6 data strings and output buffers of 0..4096 elements; distinct = distinct (geometry, depth, flag, data)" % (len(seeds), agg[1]["evaluations"], direct["evaluations"]),
                "samples": [cases[5], cases[len(cases) // 2]],
                "conformant_among_neighbours": nconf, "binding_selftest_rejected": tested, "exhaustive_short_strings": {k: agg[0][k] for k in ("evaluations", "ok", "err", "rule_violations")},
-               "random_streams": {k: agg[1][k] for k in ("evaluations", "ok", "err", "rule_violations")}, "states": sum(s["states"] for s in s16 + s32)}
+               "direct_calls": {k: direct[k] for k in ("evaluations", "ok", "err", "rule_violations")}, "random_streams": {k: agg[1][k] for k in ("evaluations", "ok", "err", "rule_violations")}, "states": sum(s["states"] for s in s16 + s32)}
         return v.finish("fault_enumeration", cov, [
             "that a panic / oversized allocation happened is observed by the harness (catch_unwind, counting allocator); the specification supplies the enumeration of malformed neighbours and the classification conformant / malformed",
             "allocation bound: 4 * (w*h*4) + data length + 4 KiB of live heap during the call",
